@@ -20,9 +20,11 @@ PROP = {
     "assumptions": ["a manual edge (h, t) leaves the basic block that starts at h (last instruction of the straight-line run from h)",
                     "a requested manual edge replaces the successor edge with the same head and tail; successors of one instruction "
                     "that share a target are one edge guarded by the disjunction of their guards"],
-    "partial": ["lang_eq_exec (equal languages => equal Sem executions) is checked per case by running Exec/Sem.v on both graphs, not proved",
-                "recover_struct / recover_lang for a Gallina model of translate_function_extended are not proved: the property is decided "
-                "per output by the verified validator"],
+    "partial": ["lang_eq_exec for Sem.sem_run itself is not proved: proved are lang_eq_feasible (may-semantics, from language equality) and "
+                "lang_bisim_exec (deterministic executor over positions, from checker acceptance + distinct guards); the link to "
+                "Sem.sem_run is checked per case by running Exec/Sem.v on both graphs",
+                "recover_struct / recover_lang for the Gallina model (Lift/Recover.v, tied per case, without the final merge) are not "
+                "proved except recover_names_ok: the property is decided per output by the verified validator"],
     "level_text": "Verified validator: every function returned by the real translate_function_extended is checked in the Coq kernel against "
                   "the reference graph assembled (in Coq) from the program read one instruction at a time: language bisimulation "
                   "(lang_bisim, proved sound for all graphs), multiset of (address, operation) items, entry/edge/exit naming, and equal "
